@@ -236,7 +236,10 @@ Definition mon_step (c : cfg) (m : mon) (e : ev) : mon * list Z :=
                      | Some r => Some r
                      | None => let x := ps_at sn p in
                                if 0 <=? ps_rexp x
-                               then Some (mkH (ps_rexp x) (a_ip (addr_of c p 0)) (a_asn (addr_of c p 0)) false)
+                               then match h2 p with
+                                    | Some r => Some r      (* the entry just dropped: right address class *)
+                                    | None => Some (mkH (ps_rexp x) (a_ip (addr_of c p 0)) (a_asn (addr_of c p 0)) false)
+                                    end
                                else None end in
   (mkMon h5 mcs (sn_circs sn) (fun p => ps_connected (ps_at sn p)) (sn_t sn) closed, d_op ++ d_life ++ d_caps ++ d_rest ++ d_lim).
 
